@@ -134,7 +134,7 @@ function judge(c, resps) {
   if (r.panic || r.died || r.hang || !r.eval_js) return { skip: true };
   if (abstain(c)) return { skip: true };
   const env = E.makeEnv();
-  env.modules = { lib: { Imp: env.names.reg({ __component: 'Imp' }, 'Imp') } };
+
   const ctx = { names: env.names, flags: false };
   const viol = [];
   let obs;
